@@ -75,3 +75,14 @@ check('C13',
       'Unicode version gets the structural checks (thorough).',
       'the block between the low and the high probe points is only added/removed as a whole; value-equality of tables only for the interpreter\'s Unicode version',
       'DESIGN.md section 3 C13')
+check('C15',
+      'explicit-state BFS over map and array values through the real evaluator against list models; exhaustive key-pair constructor table',
+      'Breadth-first search from map{} and three seeded maps: every map:put / map:remove (one and two keys) / map:merge with each of the five '
+      'duplicates policies over 16 keys (numeric tower incl. NaN and 0.1 decimal vs double, string/anyURI/untypedAtomic, boolean, dates with '
+      'and without timezone) x 7 value kinds, each as ONE XPath evaluation with the current map bound to $m, to depth 2 (quick) / 3 (thorough), '
+      'deduplicated on the canonical model value; after every transition the result equals the list-of-entries model with the same-key '
+      'relation, size/keys/contains/get/call/lookup/find/for-each agree for every key and the operand is re-observed unchanged. map{k1:..,k2:..} '
+      'for all key pairs (XQDY0137 iff same key). Arrays: append/insert-before/put/remove/get/subarray/reverse/head/tail/join/flatten/?* with every '
+      'index in {-1,0,1,2,size,size+1} from three seeds to depth 3/4 against a list model incl. FOAY0001/FOAY0002. deep-equal over all pairs of a value pool x trailing items.',
+      'key type of stored keys and key order are not compared; use-any accepts either value',
+      'DESIGN.md section 3 C15')
